@@ -223,7 +223,11 @@ def explore_spaces(hname, spaces, workers, deadline, validate=True, log=None):
 
 
 def _cfgstr(cfg):
-    return ' '.join('%s=%s' % (k, v) for k, v in cfg.items())
+    def show(v):
+        if isinstance(v, str) and any(ord(c) < 32 for c in v):
+            return v.encode('unicode_escape').decode()
+        return v
+    return ' '.join('%s=%s' % (k, show(v)) for k, v in cfg.items())
 
 
 def _merge(R, r):
